@@ -31,6 +31,7 @@ def errName : Err → String
   | .jsonDecode => "JSONDecodeError"
   | .valueError => "ValueError"
   | .validation => "ValidationError"
+  | .launchFailed => "LaunchFailed"
   | .other => "other"
 
 def getEnv (j : Json) : Except String Env :=
@@ -42,7 +43,7 @@ def getEnv (j : Json) : Except String Env :=
   | _ => throw "dflt must be an object"
 
 /-- {"m":"config","entry":"loader"|"cliTest"|"runner","file":{"k":"missing"|"invalid"|"json","v":…},
-    "names":[…],"dflt":{…}}
+    "names":[…],"dflt":{…},"files":[existing executable files]}
  -> {"launches":[{"argv":[…],"env":{…},"handshake":bool}],"raised":null|name,
      "load":{"err":name}|{"command":…,"args":[…],"env":null|{…},"timeout":null|value}} -/
 def handle (j : Json) : Except String Json := do
@@ -59,7 +60,8 @@ def handle (j : Json) : Except String Json := do
     | s => throw s!"unknown file kind {s}"
   let names ← j.getObjValAs? (List String) "names"
   let dflt ← getEnv (← j.getObjVal? "dflt")
-  let r := entry e dflt f names
+  let files := (j.getObjValAs? (List String) "files").toOption.getD []
+  let r := entryOn files e dflt f names
   let ld := match names with
     | [] => Json.null
     | n :: _ => match load f n with
